@@ -51,6 +51,24 @@ def self_fields(tr, op):
     return out
 
 
+def is_self_field(tr, op, field, depth=0):
+    """the operand reads self.<field> (directly, or through a compiler temporary that copies it)"""
+    if op["k"] not in ("copy", "move"):
+        return False
+    pp = pl_projs(op["pl"])
+    if pp and pp[-1] == field and tr.b.is_param(op["pl"]["l"]) and op["pl"]["l"] == 1:
+        return True
+    if not pp and depth < 4 and not tr.b.local_name(op["pl"]["l"]):
+        ds = [d for d in tr.b.defs.get(op["pl"]["l"], []) if not d[2]]
+        return len(ds) == 1 and ds[0][3]["k"] == "use" and is_self_field(tr, ds[0][3]["op"], field, depth + 1)
+    return False
+
+
+def last_field(projs):
+    fs = [p for p in projs if p.startswith(".")]
+    return fs[-1] if fs else None
+
+
 def is_map_get(t):
     cd = callee_def(t)
     return cd.endswith("::get") and any(x in cd for x in ("BTreeMap", "HashMap", "IndexMap", "AHashMap")) or \
@@ -146,8 +164,9 @@ def check_scope(crate, rep, cfg):
             ok = fwd and not (a in b.reach_from(c) if a != c else False)
             rep.add("C03.SCOPE", "C03.SCOPE:get_value:order:%s<%s" % (order[i], order[j]), ok, b.where(c), "the %s lookup comes before the %s lookup on every path (never after it)"
                     % (order[i], order[j]) + ("" if ok else " — VIOLATED: name resolution order changed"))
+    walk_heads = [bb for bb, t in b.calls() if callee_def(t).endswith("Iterator::next") and s["loops"] in b.reach_from(bb)]
     for a, c in (("loops", "assignments"), ("assignments", "context"), ("context", "global")):
-        ok = b.dominates(s[a], s[c])
+        ok = b.dominates(s[a], s[c]) if a != "loops" else (bool(walk_heads) and all(b.dominates(h, s[c]) for h in walk_heads))
         rep.add("C03.SCOPE", "C03.SCOPE:get_value:dominates:%s<%s" % (a, c), ok, b.where(s[c]), "the %s lookup is always tried before the %s lookup is reached" % (a, c)
                 + ("" if ok else " — VIOLATED: a path reaches the %s lookup without trying %s" % (c, a)))
     # a hit returns at once: from the block that assigns the return value out of scope i, no lookup of a later scope is reachable
@@ -346,8 +365,7 @@ def check_iter(crate, rep, cfg):
         # operands: self.index0 and the constant 1
         for (b2, i2, dp, rv) in [(bb, idx, None, st["rv"]) for bb, idx, st in la.stmts() if idx != "t" and st.get("k") == "assign" and st["rv"]["k"] == "bin"
                                  and st["rv"]["op"] in ("Add", "AddWithOverflow")]:
-            lp = rv["l"].get("pl")
-            ok = ok and lp is not None and pl_projs(lp)[-1:] == [".index0"] and rv["r"]["k"] == "const" and str(rv["r"].get("v")) == "1"
+            ok = ok and is_self_field(ltr, rv["l"], ".index0") and rv["r"]["k"] == "const" and str(rv["r"].get("v")) == "1"
     rep.add("C03.ITER", "C03.ITER:counters:index0+=1", ok, la.where(0), "Loop::advance sets index0 = index0 + 1" + ("" if ok else " — VIOLATED"))
     a1 = one_rv(la, ".first")
     ok = bool(a1) and a1[2]["k"] == "use" and a1[2]["op"]["k"] == "const" and str(a1[2]["op"].get("v")) == "0"
@@ -364,15 +382,16 @@ def check_iter(crate, rep, cfg):
         if ok:
             sides = [ltr.operand(eqs[0]["l"]), ltr.operand(eqs[0]["r"])]
             is_index = lambda ls: bool(ls) and all(leaf_call_is(l, "vm::for_loop::Loop::index") for l in ls)
-            is_len = lambda ls: bool(ls) and all(l.kind == "param" and l.projs and l.projs[-1] == ".length" for l in ls)
+            is_len = lambda ls: bool(ls) and all(l.kind == "param" and last_field(l.projs) == ".length" for l in ls)
             ok = (is_index(sides[0]) and is_len(sides[1])) or (is_index(sides[1]) and is_len(sides[0]))
         # and it is evaluated after index0 moved
         if ok and a0:
             ok = la.dominates(a0[0], a2[0]) and (a0[0] != a2[0] or a0[1] < a2[1])
     rep.add("C03.ITER", "C03.ITER:counters:last=(index==length)", ok, la.where(0), "Loop::advance sets last = (index() == length) after moving index0" + ("" if ok else " — VIOLATED"))
     adds = [st["rv"] for bb, idx, st in li.stmts() if idx != "t" and st.get("k") == "assign" and st["rv"]["k"] == "bin"]
+    itr = Tracer(li)
     ok = len(adds) == 1 and adds[0]["op"] in ("Add", "AddWithOverflow") and adds[0]["r"]["k"] == "const" and str(adds[0]["r"].get("v")) == "1" \
-        and adds[0]["l"].get("pl") is not None and pl_projs(adds[0]["l"]["pl"])[-1:] == [".index0"]
+        and is_self_field(itr, adds[0]["l"], ".index0")
     rep.add("C03.ITER", "C03.ITER:counters:index=index0+1", ok, li.where(0), "Loop::index() is index0 + 1" + ("" if ok else " — VIOLATED"))
     # initial counters in ForLoop::new
     nw = crate.one("vm::for_loop::ForLoop::new")
@@ -383,7 +402,7 @@ def check_iter(crate, rep, cfg):
         bb, idx, st = aggs[0]
         ops = st["rv"]["ops"]
         adt = crate.adts["vm::for_loop::Loop"]
-        names = [f["name"] for f in adt.fields()]
+        names = [f["n"] for f in adt.fields()]
         byname = dict(zip(names, ops))
         ntr = Tracer(nw)
         c = lambda o, v: o["k"] == "const" and str(o.get("v")) == v
@@ -419,7 +438,7 @@ def check_loopvar(crate, rep, cfg):
                     if l.kind == "call" and leaf_call_is(l, "vm::for_loop::Loop::index"):
                         srcs.add("index()")
                     elif l.kind == "param" and l.detail == 1 and ".loop_data" in l.projs:
-                        srcs.add(l.projs[-1].lstrip("."))
+                        srcs.add(last_field(l.projs).lstrip("."))
                     else:
                         srcs.add("?" + leaf_str(l))
         table[lit] = srcs
@@ -461,16 +480,16 @@ def check_incl(crate, rep, cfg):
     ri = crate.one("vm::interpreter::VirtualMachine::<'tera>::render_include")
     rep.analysed(ri)
     # the includer's state arrives as a shared reference
-    ptys = [ri.local_ty(i) for i in range(1, ri.nargs + 1)]
+    ptys = [ri.local_ty(i) for i in range(1, ri.arg_count + 1)]
     st = [t for t in ptys if "vm::state::State" in t]
     ok = len(st) == 1 and st[0].startswith("&") and not st[0].startswith("&mut")
     rep.add("C03.INCL", "C03.INCL:render_include:includer-state-shared", ok, ri.where(0), "render_include receives the includer's State as `&State` (%s): the included template "
             "cannot assign into it" % (st[0][:60] if st else "missing") + ("" if ok else " — VIOLATED"))
     # ... and State has no interior mutability
     from props import c18
-    cells = c18.interior_mutability(crate, STATE) if hasattr(c18, "interior_mutability") else None
+    cells = c18.unsafe_cell_paths(crate, STATE)
     if cells is None:
-        raise AnchorMissing("c18.interior_mutability")
+        raise AnchorMissing("type-graph root vm::state::State")
     rep.add("C03.INCL", "C03.INCL:State:no-interior-mutability", not cells, ri.where(0), "no Cell/RefCell/Mutex/atomic is reachable from vm::state::State through owned fields or "
             "shared references, so `&State` is read-only" + ("" if not cells else " — VIOLATED: %s" % cells[:3]))
     tr = Tracer(ri)
@@ -483,7 +502,7 @@ def check_incl(crate, rep, cfg):
     ok = len(ws) == 1
     if ok:
         leaves = tr._rv(ws[0][2], (), set(), 0, ws[0][0], ws[0][1])
-        sp = [i for i in range(1, ri.nargs + 1) if "vm::state::State" in ri.local_ty(i)]
+        sp = [i for i in range(1, ri.arg_count + 1) if "vm::state::State" in ri.local_ty(i)]
         ok = bool(leaves) and bool(sp) and all(l.kind == "param" and l.detail == sp[0] for l in leaves)
     rep.add("C03.INCL", "C03.INCL:render_include:parent-link", ok, ri.where(0), "the child's include_parent is the includer's own State (so the include reads the includer's "
             "current variables)" + ("" if ok else " — VIOLATED"))
@@ -491,7 +510,7 @@ def check_incl(crate, rep, cfg):
     if news:
         bb, t = news[0]
         leaves = tr.operand(t["args"][0])
-        sp = [i for i in range(1, ri.nargs + 1) if "vm::state::State" in ri.local_ty(i)]
+        sp = [i for i in range(1, ri.arg_count + 1) if "vm::state::State" in ri.local_ty(i)]
         ok = bool(leaves) and bool(sp) and all(l.kind == "param" and l.detail == sp[0] and ".context" in l.projs for l in leaves)
         rep.add("C03.INCL", "C03.INCL:render_include:context", ok, ri.where(bb), "the child State is created over the includer's render context" + ("" if ok else " — VIOLATED: %s"
                 % sorted(leaf_str(l) for l in leaves)[:2]))
